@@ -62,6 +62,59 @@ func (m *pingMsg) Decode(b []byte) (uint64, error) {
 }
 func (m *pingMsg) Handle(c *gnet.MessageContext, state interface{}) error { return nil }
 
+// ---- a message whose handler blocks until released, and a large outgoing message -------------------------
+// (the "busy connection" workloads: Shutdown while one connection has a handler running with another message
+// queued behind it, a write blocked on a peer that does not read, and a blocked read)
+
+var busyMu sync.Mutex
+var busyEntered, busyRelease chan struct{}
+
+func busyChans() (chan struct{}, chan struct{}) {
+	busyMu.Lock()
+	defer busyMu.Unlock()
+	return busyEntered, busyRelease
+}
+
+type blokMsg struct{ X uint32 }
+
+func (m *blokMsg) EncodeSize() uint64 { return 4 }
+func (m *blokMsg) Encode(b []byte) error {
+	if len(b) < 4 {
+		return fmt.Errorf("short")
+	}
+	return nil
+}
+func (m *blokMsg) Decode(b []byte) (uint64, error) {
+	if len(b) < 4 {
+		return 0, fmt.Errorf("short")
+	}
+	return 4, nil
+}
+func (m *blokMsg) Handle(c *gnet.MessageContext, state interface{}) error {
+	ent, rel := busyChans()
+	if ent == nil {
+		return nil
+	}
+	select {
+	case ent <- struct{}{}:
+	default:
+	}
+	<-rel
+	return nil
+}
+
+type bigMsg struct{ N int }
+
+func (m *bigMsg) EncodeSize() uint64                                     { return uint64(m.N) }
+func (m *bigMsg) Encode(b []byte) error                                  { return nil }
+func (m *bigMsg) Decode(b []byte) (uint64, error)                        { return uint64(len(b)), nil }
+func (m *bigMsg) Handle(c *gnet.MessageContext, state interface{}) error { return nil }
+
+// busyMode: the workload additionally keeps one incoming connection busy in all three ways at shutdown
+var busyMode bool
+
+const busyBig = 48 << 20
+
 // ---- event recorder ---------------------------------------------------------------------------
 
 func gid() uint64 {
@@ -293,6 +346,14 @@ func runWorkload(seed uint64, nClients, nOps, nIn, nOut int, delay time.Duration
 	cfg.DialTimeout = time.Second
 	cfg.ReadTimeout = 2 * time.Second
 	cfg.WriteTimeout = 2 * time.Second
+	if busyMode {
+		cfg.WriteTimeout = time.Minute
+		cfg.ReadTimeout = time.Minute
+		cfg.MaxOutgoingMessageLength = 2 * busyBig
+		busyMu.Lock()
+		busyEntered, busyRelease = make(chan struct{}, 1), make(chan struct{})
+		busyMu.Unlock()
+	}
 	var ln net.Listener
 	if pollQuery {
 		// the listener must exist before the pool so that it can be named as a default connection
@@ -487,6 +548,32 @@ func runWorkload(seed uint64, nClients, nOps, nIn, nOut int, delay time.Duration
 		pool.Connect(ln.Addr().String()) //nolint:errcheck
 	}
 
+	// the busy connection
+	var busyConn net.Conn
+	shutCalled := make(chan struct{})
+	if busyMode {
+		ent, rel := busyChans()
+		if bc, err := net.DialTimeout("tcp", addr, time.Second); err == nil {
+			busyConn = bc
+			for j := 0; j < 3; j++ {
+				bc.Write([]byte{8, 0, 0, 0, 'B', 'L', 'O', 'K', byte(j), 0, 0, 0}) //nolint:errcheck
+			}
+			select {
+			case <-ent: // the first message's handler is running; two more are queued behind it
+			case <-time.After(2 * time.Second):
+			}
+			// the peer never reads: this write stays blocked in the kernel until the socket is closed
+			pool.SendMessage(bc.LocalAddr().String(), &bigMsg{N: busyBig}) //nolint:errcheck
+			time.Sleep(5 * time.Millisecond)
+		}
+		go func() {
+			// the handler returns only after Shutdown has closed quit and handleConnection has closed the socket
+			<-shutCalled
+			time.Sleep(30 * time.Millisecond)
+			close(rel)
+		}()
+	}
+
 	// shutdown
 	shutDone := make(chan struct{})
 	go func() {
@@ -495,6 +582,7 @@ func runWorkload(seed uint64, nClients, nOps, nIn, nOut int, delay time.Duration
 		rec.mu.Lock()
 		rec.shutG = g
 		rec.mu.Unlock()
+		close(shutCalled)
 		pool.Shutdown()
 		a, b := pool.VerifPoolSizes()
 		rec.mu.Lock()
@@ -525,6 +613,9 @@ func runWorkload(seed uint64, nClients, nOps, nIn, nOut int, delay time.Duration
 		c.Close()
 	}
 	inMu.Unlock()
+	if busyConn != nil {
+		busyConn.Close()
+	}
 	<-acceptDone // every peerWG.Add of the accept loop has happened
 	peerWG.Wait()
 
@@ -549,6 +640,12 @@ func c32Exec(op string) string {
 		defer func() { pollQuery = false }()
 		f[0] = "run"
 	}
+	if f[0] == "runb" && len(f) == 7 {
+		// same workload, plus one connection that is busy in every way when Shutdown is called
+		busyMode = true
+		defer func() { busyMode = false }()
+		f[0] = "run"
+	}
 	if f[0] != "run" || len(f) != 7 {
 		panic("harness: unknown op " + op)
 	}
@@ -569,6 +666,14 @@ func c32Gen(r *Rng, tier string, emit func(string)) {
 		delay := []int{0, 50, 200, 1000, 3000, 8000}[r.Intn(6)]
 		emit(fmt.Sprintf("run %d %d %d %d %d %d", r.U64()%1000000, clients, ops, in, out, delay))
 	}
+	nb := 6
+	if tier == "thorough" {
+		nb = 60
+	}
+	for i := 0; i < nb; i++ {
+		delay := []int{0, 200, 3000}[r.Intn(3)]
+		emit(fmt.Sprintf("runb %d %d %d %d %d %d", r.U64()%1000000, r.Intn(3), r.Range(1, 10), r.Intn(3), r.Intn(2), delay))
+	}
 }
 
 func main() {
@@ -576,6 +681,8 @@ func main() {
 		nameLocks[n] = &sync.Mutex{}
 	}
 	gnet.RegisterMessage(gnet.MessagePrefixFromString("PING"), pingMsg{})
+	gnet.RegisterMessage(gnet.MessagePrefixFromString("BLOK"), blokMsg{})
+	gnet.RegisterMessage(gnet.MessagePrefixFromString("BIGM"), bigMsg{})
 	gnet.VerifyMessages()
 	// GORACE=log_path=… is set by the check for -race builds
 	for _, kv := range strings.Fields(os.Getenv("GORACE")) {
